@@ -190,6 +190,24 @@ def rule_update(ctx: Ctx) -> RuleResult:
         isinstance(n, ast.Subscript) and isinstance(n.slice, ast.Slice) and "option_prefix" in norm(n.slice) for n in own_nodes(f.node))
     if not strip:
         problems.append("the optional prefix is not removed from the value")
+    # the prefix is removed only from values that carry it: every stripping expression is under a startswith test
+    for n in own_nodes(f.node):
+        is_strip = (isinstance(n, ast.Call) and isinstance(n.func, ast.Attribute) and n.func.attr in ("replace", "lstrip")
+                    and n.args and "option_prefix" in norm(n.args[0]))
+        if not is_strip:
+            continue
+        guarded = any(lab == "true" and any(isinstance(c, ast.Call) and isinstance(c.func, ast.Attribute) and c.func.attr == "startswith"
+                                            for c in ast.walk(t))
+                      for t, lab in ctx.ef._dominating_tests(cfg_of(f.node), n))
+        if not guarded:
+            # or the flag that guards it derives from startswith
+            for t, lab in ctx.ef._dominating_tests(cfg_of(f.node), n):
+                at = flow.node_of(n)
+                if lab == "true" and any(a.kind == "call" and a.text.endswith(".startswith") for a in flow.depends(t, at.id if at else None)):
+                    guarded = True
+        if not guarded:
+            problems.append(f"`{norm(n)}` removes the prefix character from every value, not only from those that start with it "
+                            f"(a plain value containing it is altered)")
     rets = _rets(f)
     if not all(r.value is not None and not any(a.kind == "param" and a.text == data_p for a in flow.aliases(r.value)) for r in rets):
         problems.append("returns the caller's dictionary")
@@ -459,4 +477,55 @@ def rule_queryroute(ctx: Ctx) -> RuleResult:
         res.ok("query_helper.to_dict / to_string", "urlencode of the whole dictionary / parse_qsl of the whole string")
     else:
         res.violation(["spil.sid.core.query_helper", "codec"], "to_string / to_dict no longer encode / decode the whole mapping", td.relpath, td.node.lineno)
+    return res
+
+
+# ------------------------------------------------------------------------------------------------
+def _whole_copy_of(e: ast.AST, pname: str) -> bool:
+    """``e`` is the parameter or a complete copy of it"""
+    if isinstance(e, ast.Name) and e.id == pname:
+        return True
+    if isinstance(e, ast.Call) and not e.keywords:
+        if isinstance(e.func, ast.Name) and e.func.id in ("dict", "OrderedDict") and len(e.args) == 1:
+            return _whole_copy_of(e.args[0], pname)
+        if isinstance(e.func, ast.Attribute) and e.func.attr == "copy" and not e.args:
+            return _whole_copy_of(e.func.value, pname)
+    if isinstance(e, ast.Dict) and len(e.keys) == 1 and e.keys[0] is None:
+        return _whole_copy_of(e.values[0], pname)
+    return False
+
+
+def rule_fieldsarg(ctx: Ctx) -> RuleResult:
+    """Sid(fields=d): the dictionary that is typed and formatted is d itself, all of it (C02: the fields form
+    denotes the Sid with exactly these fields; a dropped or rewritten key makes another Sid of it)"""
+    res = RuleResult("R-FIELDSARG")
+    f = ctx.p.function("spil.sid.core.sid_factory.dict_to_sid")
+    flow = flow_of(f.node)
+    pname = f.params[0]
+    n = 0
+    for cs in ctx.cg.sites.get(f.qualname, []):
+        if not isinstance(cs.node, ast.Call):
+            continue
+        names = {t.qualname for t in cs.targets}
+        if not names & {"spil.sid.core.sid_resolver.dict_to_type", "spil.sid.core.sid_resolver.dict_to_sid"}:
+            continue
+        if not cs.node.args:
+            continue
+        n += 1
+        arg = cs.node.args[0]
+        at = flow.node_of(cs.node)
+        vals = [arg]
+        if isinstance(arg, ast.Name) and flow.is_local(arg.id):
+            ds = list(flow.defs_reaching(at.id, arg.id)) if at is not None else []
+            vals = [d.value if d.kind == "assign" else (ast.Name(id=d.var, ctx=ast.Load()) if d.kind == "param" else None) for d in ds]
+        bad = [v for v in vals if v is None or not _whole_copy_of(v, pname)]
+        site = f"{f.short}: `{norm(cs.node)[:60]}`"
+        if bad:
+            shown = norm(bad[0])[:70] if bad[0] is not None else "a value that is not the given dictionary"
+            res.violation([f.qualname, norm(cs.node.func), "fields argument"],
+                          f"{f.short} types / formats `{shown}` instead of the given fields dictionary: keys are dropped or rewritten "
+                          f"before the Sid is built, so Sid(fields=d) is not the Sid with the fields d", f.relpath, cs.lineno, site=site)
+        else:
+            res.ok(site, "receives the given dictionary itself (or a complete copy)")
+    res.floor(n, 2, "resolver calls in sid_factory.dict_to_sid (dict_to_type, dict_to_sid)")
     return res
